@@ -189,9 +189,14 @@ func (s *Service) GetListener() (net.Listener, error) {
 	return l, nil
 }
 
-func (s *Service) setListener(ctx context.Context) error {
+func (s *Service) setListener(ctx context.Context, addressErr error) error {
 	l := activationListener()
 	if l == nil {
+		// Without an inherited listener the address decides; refuse what parseAddress refused.
+		if addressErr != nil {
+			return addressErr
+		}
+
 		if s.protocol == "unix" && s.address[0] != '@' {
 			os.Remove(s.address)
 		}
@@ -236,9 +241,7 @@ func (s *Service) Bind(ctx context.Context, address string) error {
 	}
 	s.mutex.Unlock()
 
-	s.parseAddress(address)
-
-	err := s.setListener(ctx)
+	err := s.setListener(ctx, s.parseAddress(address))
 	if err != nil {
 		return err
 	}
